@@ -76,6 +76,26 @@ CHECKS = {
         note='Independent codec mc/wire.py; random big integers are supplementary only.',
         technique='exhaustive bounded enumeration of codec inputs with inverse-law and independent-decoder oracles',
         design='3/C10'),
+    'C11': dict(
+        text='RSA moduli of every exact bit length on a dense grid 512..16384 (step 1 around the thresholds), all ordered selections of the RSA '
+             'family, fixed-size key types, 66 certificate configurations (RSA/Ed25519 certificates x RSA/Ed25519/ECDSA CAs), every key-exchange '
+             'reply path; sizes, CA details, fingerprints and size ratings compared with the key the scripted server generated.',
+        note='Ground truth is the generated key; fingerprints via hashlib on the blob sent.',
+        technique='explicit enumeration of executions of the real CLI over a bounded input grid, ground-truth oracle',
+        design='3/C11'),
+    'C12': dict(
+        text='Every subset of the 9 modulus sizes x strict/round-up/OpenSSH-fallback selection x sha1/sha256/both x OpenSSH/other banner, text and '
+             'JSON, judged against the server\'s own log of requests and groups handed out; plus every message-level fault at every probe connection.',
+        note='OpenSSH selection modelled after dh.c; inner length-field changes of the group message count as a different well-formed group.',
+        technique='exhaustive enumeration of server policies (all reachable probe-loop behaviours) + 1 environment deviation, log-derived oracle',
+        design='3/C12'),
+    'C13': dict(
+        text='Banners of every recognised product at and around every first-appeared version in the database plus multi-digit versions and '
+             'unrecognised software, crossed with peers in which every database entry occurs both advertised and not advertised; the recommendation '
+             'section is checked against the notes of the same report, the database and numeric version order.',
+        note='Entries without version information are not required either way.',
+        technique='explicit enumeration of executions of the real CLI, consistency oracle within one report',
+        design='3/C13'),
     'C14': dict(
         text='All ordered pairs of 1-2 component versions over 19 component values, a 300-element slice of 3-4 component versions, all pairs and '
              'triples of a 60-element mixed set with patch suffixes, for OpenSSH/Dropbear/libssh; end-to-end through the CLI for banners around every '
@@ -83,6 +103,37 @@ CHECKS = {
         note='Numeric order = component-wise integer comparison; trailing-zero and patch-level ties only need antisymmetry/transitivity.',
         technique='exhaustive pair/triple enumeration of the comparison function against an integer-tuple reference + CLI conformance',
         design='3/C14'),
+    'C15': dict(
+        text='Peers covering every severity mix x all 72 combinations of -b, -v, -n, -l, -j/-jj, each run twice, plus fresh interpreters under '
+             'four hash seeds: equal exit status, equal finding sets, level filtering only removes lines, JSON is one document, runs are identical.',
+        note='With colours a line\'s level is read from its colour; JSON compared for database-known names.',
+        technique='explicit enumeration of configurations on the real CLI, differential oracle across option sets',
+        design='3/C15'),
+    'C16': dict(
+        text='The banner grammar enumerated to a bound (protocols x software tokens up to length 3 x comments/separators/endings), injected '
+             'non-printable characters at every position, product templates, header-line prefixes with near-misses, delivery split at every byte '
+             'offset through the real socket reader, and the CLI in text and JSON, against an RFC 4253 reference parser.',
+        note='Reference parser refmodels/banner.py; comments compared modulo runs of blanks.',
+        technique='bounded exhaustive grammar enumeration against a reference parser (direct calls + socket path + CLI)',
+        design='3/C16'),
+    'C17': dict(
+        text='Every entry of every table as it stands (rating DB shape and broken-primitive rule, probe/GEX/DHEat tables, every algorithm of every '
+             'built-in policy version) plus a standard audit of a peer synthesised from each built-in policy.',
+        note='Finite-configuration exhaustive check; token rules listed in the evidence.',
+        technique='exhaustive enumeration of a finite configuration space + execution of the real CLI per policy',
+        design='3/C17'),
+    'C18': dict(
+        text='Hosts x ports x documented spellings x source (argv, targets file, messy targets file) x -p x IP-version options x resolver answers; '
+             'the intercepted resolver/connect log and the report label are compared with a reference target grammar.',
+        note='An explicit port in the target wins over -p; quick tier takes every third combination, thorough the full product.',
+        technique='explicit enumeration of configurations on the real CLI with an environment log monitor',
+        design='3/C18'),
+    'C19': dict(
+        text='Connection-log monitor over the C09 fault space, all rate-phase behaviours (banner, MaxStartups, silent, close, refuse, async refuse, '
+             'timeout) x modes x kex sets, and ordinary option sets: connection count, concurrency, where key-exchange requests appear, closure at exit.',
+        note='Virtual clock model of select(); sockets collected by the interpreter count as closed.',
+        technique='deviation-bounded exhaustive fault enumeration with a monitor on the environment log',
+        design='3/C19'),
 }
 
 PENDING_REASON = 'check not built yet in this session; see DESIGN.md section 3 for the planned bounded exploration'
